@@ -54,6 +54,19 @@ class Protocol(Component):
             if getattr(args[0], 'node_call_id', False) is not False:
                 self.send_result(source_event.node_call_id, source_event.value)
 
+    @handler('exception', channel='*', priority=100)
+    def exception_handler(self, error_type, value, traceback, handler=None, fevent=None):
+        # A handler of an event that came from the peer raised: there will be
+        # no <name>_success, so report the failure (error flag set) instead of
+        # leaving the sender waiting for ever.
+        if getattr(fevent, 'node_call_id', False) is False or getattr(fevent, 'node_sock', None) is not self.__sock:
+            return
+
+        result = Value(fevent, self)
+        result.errors = True
+        result._value = [getattr(error_type, '__name__', str(error_type)), str(value)]
+        self.send_result(fevent.node_call_id, result)
+
     def send(self, event):
         if self.__send_event_firewall and not self.__send_event_firewall(event, self.__sock):
             yield Value(event, self)
@@ -126,6 +139,7 @@ class Protocol(Component):
 
             # save result
             ev.value.setValue(value)
+            ev.value.errors = bool(error)
             ev.errors = error
             ev.remote_finish = True
 
